@@ -9,11 +9,13 @@ from vlib import *  # noqa
 CLAUSES = {
     "C07": {"bad_old", "edge", "left_terminal", "callback", "callback_missing", "ran_after_terminal",
             "result_state", "unreported_change", "refused_but_changed", "refused_legal",
-            "change_outside_resume", "body_outside_resume", "illegal_accepted", "spurious_error"},
-    "C08": {"value_in", "value_out", "panic_message", "return_lost", "panic_lost", "unwound", "panic", "hang", "abort"},
+            "change_outside_resume", "body_outside_resume", "illegal_accepted", "spurious_error",
+            "current_leak", "thread_not_normal"},
+    "C08": {"value_in", "value_out", "panic_message", "return_lost", "panic_lost", "unwound", "panic", "hang", "abort",
+            "thread_not_normal"},
     "C09": {"foreign_timestamp", "foreign_cancel", "cancel_lost"},
 }
-EXTRA = {"current_leak"}
+EXTRA = {"suspender_leak", "fault_message", "fault_not_error"}
 CALLBACKS = ["on_state_changed", "on_ready", "on_running", "on_suspend", "on_syscall", "on_cancel",
              "on_complete", "on_error"]
 
@@ -148,6 +150,8 @@ def build_scenarios(pid, tier, cov):
         scs.append(t)
     for i, s in enumerate(scs):
         s["id"] = i + 1
+        # the resuming thread must keep working after bodies that panicked / trapped: hooked 1 ms sleep
+        s["post_sleep"] = (i % 4 == 0)
     return scs
 
 
@@ -264,8 +268,7 @@ def run(pid, tier):
         else:
             v.note("clause %s (another property) in scenario %s" % (clause, scen))
     if extra:
-        v.note("current-coroutine stack not empty after a refused resume: %d time(s) (outside the listed properties; "
-               "Coroutine.tla invariant CurrentDiscipline, deviation 'current_leak')" % extra)
+        v.note("%d record(s) of clauses owned by other checks (suspender_leak / fault clauses: C24)" % extra)
     cov["traces_validated_against_impl"] = len(scs)
     cov["trace_records"] = info["total"]
     srcs = {}
